@@ -135,7 +135,33 @@ def case_strategy(draw):
         cells = draw(st.lists(st.tuples(st.integers(0, 359), st.integers(-60, 60)), min_size=k, max_size=k, unique=True))
         near = [(min(359, c[0] + draw(st.integers(0, 2))), c[1] + draw(st.integers(0, 2))) for c in cells[:k // 2]]
         pts = dict(family='integer-arrays', ra1=[c[0] for c in cells + near], dec1=[c[1] for c in cells + near])
+    if pts['family'] in ('chain', 'filaments', 'polylines', 'randomwalk', 'cluster') and draw(st.integers(0, 2)) == 0:
+        # a few isolated background points next to the structure (1.3 - 3 lengths from one of its points, farther than that from
+        # every other point), listed AFTER all its members in the input
+        ra_, dec_ = list(pts['ra1']), list(pts['dec1'])
+        for _ in range(draw(st.integers(2, 5))):
+            j = draw(st.integers(0, len(ra_) - 1))
+            r = L * draw(st.sampled_from([1.3, 1.7, 2.2, 3.0]))
+            ang = math.pi * draw(G.unitf)
+            cosd = max(math.cos(math.radians(dec_[j])), 1e-3)
+            cand = (G._wrap(ra_[j] + r * math.cos(ang) / cosd), G._clipdec(dec_[j] + r * math.sin(ang)))
+            S_ = G.sepmat(np.array([cand[0]]), np.array([cand[1]]), np.array(ra_), np.array(dec_))
+            if S_.min() > 1.05 * L:
+                ra_.append(cand[0])
+                dec_.append(cand[1])
+        if len(ra_) > len(pts['ra1']):
+            pts = dict(pts, ra1=ra_, dec1=dec_, family=pts['family'] + '+background')
     special = draw(st.integers(0, 60))
+    if special == 2:
+        # two to four positions far from each other and a linking length of tens of degrees that still keeps them apart
+        shapes = [[(0.0, 0.0), (180.0, 0.0)], [(0.0, 0.0), (120.0, 0.0), (240.0, 0.0)], [(0.0, 89.0), (0.0, -19.47), (120.0, -19.47), (240.0, -19.47)],
+                  [(10.0, 30.0), (190.0, -30.0)], [(0.0, 0.0), (90.0, 0.0), (180.0, 0.0), (270.0, 0.0)]]
+        sh = draw(st.sampled_from(shapes))
+        rot = 360.0 * abs(draw(G.unitf))
+        pp = [(G._wrap(r + rot), d + 0.3 * draw(G.unitf)) for r, d in sh]
+        Sm = G.sepmat(np.array([p[0] for p in pp]), np.array([p[1] for p in pp]), np.array([p[0] for p in pp]), np.array([p[1] for p in pp]))
+        minsep = float(np.min(Sm[~np.eye(len(pp), dtype=bool)]))
+        return dict(family='few-far', ra=[p[0] for p in pp], dec=[p[1] for p in pp], L=draw(st.sampled_from([0.5, 0.7, 0.9])) * minsep, chunksize=None)
     if special == 0:
         # linking length exactly 0: positions given more than once (bit-identical coordinates) are 0 apart and belong together
         k = draw(st.integers(1, 6))
@@ -256,7 +282,7 @@ def nontrivial(case, labels):
 
 SUBCHECKS = [
     SubCheck('fof_vs_unionfind', body, strategy=case_strategy, classify=classify, nontrivial=nontrivial,
-             quick=12000, thorough=400000, shards=(16, 16),
+             quick=7000, thorough=400000, shards=(16, 16),
              doc='partition == brute-force friends-of-friends components (tolerance band) + numbering, mult, first, next'),
     SubCheck('lattice_subsets', body, kind='exhaustive', cases=lattice_cases, classify=classify, nontrivial=nontrivial,
              shards=(16, 16), floor=0.0,
